@@ -516,7 +516,7 @@ class Expr:
         elif self.is_deriv():
             return Deriv(self.var, self.body.subst(var, e))
         elif self.is_limit():
-            return Limit(self.var, self.lim.subst(var, e), self.body.subst(var, e))
+            return Limit(self.var, self.lim.subst(var, e), self.body.subst(var, e), self.drt)
         elif self.is_inf():
             return self
         elif self.is_integral():
